@@ -1,13 +1,23 @@
 package main
 
-// T1, typed part: an interprocedural mod/ref + return-alias summary of the url and canonicalizer packages, computed on
-// go/types information (stdlib only: the "source" importer type-checks the dependencies from the module cache).
+// T1, typed part: an interprocedural mod/ref summary of the url and canonicalizer packages, computed on go/types
+// information (stdlib only: the "source" importer type-checks the dependencies from the module cache).
 //
-// For every function f the summary is
-//   writes(f)  ⊆ {recv, param<i>, global}   objects that existed before the call and may be stored to by f or its callees
-//   returns(f) ⊆ {recv, param<i>, global, fresh}   where the reference-typed parts of f's results may point
-//   aliases(f) ⊆ {dst<-src}   f may store a reference rooted at src into an object rooted at dst (dst, src ≠ fresh)
-// The analysis is flow-insensitive and may-alias (unions); roots of locals are the union of everything assigned to them.
+// Abstract objects: one REGION per function for everything reachable from its receiver ("recv"), from each parameter
+// ("param<i>"), and for package-level state ("global"); one field-sensitive ALLOCATION object per syntactic allocation
+// site (composite literal, new/make, address-taken or struct-valued local, result of a call). A pointer value is a set
+// of abstract objects. Loading any field of a region yields the region; loading field f of an allocation object yields
+// what was stored there. The analysis is flow-insensitive (weak updates, unions).
+//
+// Summary of a function f, in terms of its own regions:
+//   writes(f)   regions f or its callees may store to                                   (⊆ {recv, param<i>, global})
+//   returns(f)  regions the reference-typed results may point to, "fresh" for newly allocated objects, and
+//               "fresh.<field>>r" when field <field> of a newly allocated result may (transitively) lead into region r
+//   aliases(f)  "d<-s": a reference into region s may be stored into an object of region d
+//   extern(f)   "pkg.Type.Method@r": a method of a type defined outside the two packages is called on an object of region r
+// Not followed: calls through function values (option closures, the host callbacks); parameters of function literals are
+// a separate region ("closure") whose stores are not attributed to the enclosing function. Results of functions defined
+// outside the two packages are assumed not to alias their arguments. `unsafe`/reflection are excluded by another fact.
 // Names of unexported helpers never appear in what the Lean theorems quantify over: they speak about the exported API.
 
 import (
@@ -21,19 +31,36 @@ import (
 	"strings"
 )
 
-type rootSet map[string]bool
+type aobj struct {
+	id     string // region name, or "alloc"
+	region bool
+	fields map[string]objSet
+	cfg    map[string]bool // fields whose static type is a shared configuration type (excluded from "holds a reference into")
+}
 
-func (r rootSet) addAll(o rootSet) bool {
+type objSet map[*aobj]bool
+
+func (s objSet) addAll(o objSet) bool {
 	ch := false
 	for k := range o {
-		if !r[k] {
-			r[k] = true
+		if !s[k] {
+			s[k] = true
 			ch = true
 		}
 	}
 	return ch
 }
-func (r rootSet) sorted() []string {
+
+type strSet map[string]bool
+
+func (r strSet) add(k string) bool {
+	if !r[k] {
+		r[k] = true
+		return true
+	}
+	return false
+}
+func (r strSet) sorted() []string {
 	var s []string
 	for k := range r {
 		s = append(s, k)
@@ -50,14 +77,18 @@ type mrFunc struct {
 	info     *types.Info
 	api      bool
 	recvObj  types.Object
+	recvType types.Type
 	params   []types.Object
 	variadic bool
 	results  []types.Object
-	writes   rootSet
-	returns  rootSet
-	aliases  rootSet
-	extern   rootSet // external / dynamically dispatched calls whose receiver or arguments are shared objects
-	env      map[types.Object]rootSet
+	writes   strSet
+	returns  strSet
+	aliases  strSet
+	extern   strSet
+	env      map[types.Object]objSet
+	regions  map[string]*aobj
+	allocs   map[token.Pos]*aobj
+	closureP map[types.Object]bool
 }
 
 type mrWorld struct {
@@ -125,14 +156,34 @@ func refLike(t types.Type, depth int) bool {
 		}
 	case *types.Array:
 		return refLike(u.Elem(), depth+1)
+	case *types.Tuple:
+		for i := 0; i < u.Len(); i++ {
+			if refLike(u.At(i).Type(), depth+1) {
+				return true
+			}
+		}
+	}
+	return false
+}
+
+func isStructVal(t types.Type) bool {
+	if t == nil {
+		return false
+	}
+	switch t.Underlying().(type) {
+	case *types.Struct, *types.Array:
+		return true
 	}
 	return false
 }
 
 // the shared, immutable configuration objects that results deliberately keep pointing to (documented sharing): a value
-// of one of these types stored into a result or returned is not counted as an alias of the object it came from. Stores
-// THROUGH such a pointer are still stores through its root.
+// of one of these types held by a result is not counted as "a reference into" the object it came from. Stores THROUGH
+// such a pointer are still stores to the region it points into.
 func configType(t types.Type) bool {
+	if t == nil {
+		return false
+	}
 	if pt, ok := t.(*types.Pointer); ok {
 		t = pt.Elem()
 	}
@@ -152,11 +203,13 @@ func (w *mrWorld) add(p *pkgFiles, pkg *types.Package, info *types.Info) {
 			return
 		}
 		key, disp := funcKey(obj)
-		f := &mrFunc{key: key, display: disp, pkg: pkgLast(pkg.Path()), decl: fd, info: info, writes: rootSet{}, returns: rootSet{}, aliases: rootSet{}, extern: rootSet{}}
-		f.api = ast.IsExported(fd.Name.Name) && !(fd.Name.Name == "init" && fd.Recv == nil)
+		f := &mrFunc{key: key, display: disp, pkg: pkgLast(pkg.Path()), decl: fd, info: info, writes: strSet{}, returns: strSet{}, aliases: strSet{}, extern: strSet{},
+			env: map[types.Object]objSet{}, regions: map[string]*aobj{}, allocs: map[token.Pos]*aobj{}, closureP: map[types.Object]bool{}}
+		f.api = ast.IsExported(fd.Name.Name)
 		sig := obj.Type().(*types.Signature)
 		if sig.Recv() != nil {
 			f.recvObj = sig.Recv()
+			f.recvType = sig.Recv().Type()
 		}
 		for i := 0; i < sig.Params().Len(); i++ {
 			f.params = append(f.params, sig.Params().At(i))
@@ -165,6 +218,19 @@ func (w *mrWorld) add(p *pkgFiles, pkg *types.Package, info *types.Info) {
 		for i := 0; i < sig.Results().Len(); i++ {
 			f.results = append(f.results, sig.Results().At(i))
 		}
+		// parameters of function literals: a region of their own
+		ast.Inspect(fd.Body, func(n ast.Node) bool {
+			if fl, ok := n.(*ast.FuncLit); ok {
+				for _, fld := range fl.Type.Params.List {
+					for _, nm := range fld.Names {
+						if o := info.Defs[nm]; o != nil {
+							f.closureP[o] = true
+						}
+					}
+				}
+			}
+			return true
+		})
 		w.funcs[key] = f
 		w.order = append(w.order, key)
 		if f.recvObj != nil {
@@ -179,124 +245,376 @@ type mrCtx struct {
 	ch bool
 }
 
-func (c *mrCtx) objRoots(o types.Object) rootSet {
-	f := c.f
-	if o == nil {
-		return rootSet{}
-	}
-	if o == f.recvObj {
-		r := rootSet{"recv": true}
-		r.addAll(f.env[o])
+func (c *mrCtx) region(name string) *aobj {
+	if r := c.f.regions[name]; r != nil {
 		return r
 	}
-	for i, p := range f.params {
+	r := &aobj{id: name, region: true}
+	c.f.regions[name] = r
+	return r
+}
+
+func (c *mrCtx) alloc(pos token.Pos) *aobj {
+	if a := c.f.allocs[pos]; a != nil {
+		return a
+	}
+	a := &aobj{id: "alloc", fields: map[string]objSet{}, cfg: map[string]bool{}}
+	c.f.allocs[pos] = a
+	return a
+}
+
+func isPkgVar(o types.Object) bool {
+	v, ok := o.(*types.Var)
+	return ok && v.Pkg() != nil && v.Parent() == v.Pkg().Scope()
+}
+
+func (c *mrCtx) paramIndex(o types.Object) int {
+	for i, p := range c.f.params {
 		if o == p {
-			r := rootSet{fmt.Sprintf("param%d", i): true}
-			r.addAll(f.env[o])
-			return r
+			return i
 		}
 	}
-	if v, ok := o.(*types.Var); ok {
-		if v.Pkg() != nil && v.Parent() == v.Pkg().Scope() {
-			return rootSet{"global": true}
+	return -1
+}
+
+// the objects a variable's value may point to (for struct-valued variables: the objects its fields live in / point into)
+func (c *mrCtx) varPts(o types.Object) objSet {
+	f := c.f
+	r := objSet{}
+	if o == nil {
+		return r
+	}
+	switch {
+	case o == f.recvObj:
+		r[c.region("recv")] = true
+	case c.paramIndex(o) >= 0:
+		r[c.region(fmt.Sprintf("param%d", c.paramIndex(o)))] = true
+	case isPkgVar(o):
+		r[c.region("global")] = true
+		return r
+	case f.closureP[o]:
+		r[c.region("closure")] = true
+	}
+	if _, ok := o.(*types.Var); ok {
+		if isStructVal(o.Type()) {
+			r[c.alloc(o.Pos())] = true // the variable's own storage
 		}
-		if e, ok := f.env[o]; ok {
-			r := rootSet{}
-			r.addAll(e)
-			return r
+		r.addAll(f.env[o])
+	}
+	return r
+}
+
+func (c *mrCtx) load(objs objSet, field string, fieldType types.Type) objSet {
+	r := objSet{}
+	for o := range objs {
+		if o.region {
+			r[o] = true
+			continue
+		}
+		r.addAll(o.fields[field])
+		r.addAll(o.fields["*"])
+		if isStructVal(fieldType) {
+			r[o] = true // a nested struct value lives inside the same object
 		}
 	}
-	return rootSet{}
+	return r
+}
+
+func (c *mrCtx) typeOf(e ast.Expr) types.Type {
+	if tv, ok := c.f.info.Types[e]; ok {
+		return tv.Type
+	}
+	if id, ok := e.(*ast.Ident); ok {
+		if o := c.f.info.Uses[id]; o != nil {
+			return o.Type()
+		}
+		if o := c.f.info.Defs[id]; o != nil {
+			return o.Type()
+		}
+	}
+	return nil
 }
 
 // where may the references carried by the value of e point?
-func (c *mrCtx) roots(e ast.Expr) rootSet {
+func (c *mrCtx) pts(e ast.Expr) objSet {
 	info := c.f.info
 	switch x := e.(type) {
 	case nil:
-		return rootSet{}
+		return objSet{}
 	case *ast.Ident:
-		if o := info.Uses[x]; o != nil {
-			return c.objRoots(o)
+		o := info.Uses[x]
+		if o == nil {
+			o = info.Defs[x]
 		}
-		if o := info.Defs[x]; o != nil {
-			return c.objRoots(o)
-		}
-		return rootSet{}
+		return c.varPts(o)
 	case *ast.ParenExpr:
-		return c.roots(x.X)
+		return c.pts(x.X)
 	case *ast.SelectorExpr:
 		if sel, ok := info.Selections[x]; ok {
 			if sel.Kind() == types.FieldVal {
-				return c.roots(x.X)
+				return c.load(c.pts(x.X), x.Sel.Name, c.typeOf(x))
 			}
-			return c.roots(x.X) // method value
+			return c.pts(x.X) // method value
 		}
-		// package-qualified identifier
-		if o := info.Uses[x.Sel]; o != nil {
-			if v, ok := o.(*types.Var); ok && v.Pkg() != nil && v.Parent() == v.Pkg().Scope() {
-				return rootSet{"global": true}
-			}
+		if o := info.Uses[x.Sel]; o != nil && isPkgVar(o) {
+			return objSet{c.region("global"): true}
 		}
-		return rootSet{}
+		return objSet{}
 	case *ast.IndexExpr:
-		return c.roots(x.X)
+		if t := c.typeOf(x.X); t != nil {
+			if _, isArr := t.Underlying().(*types.Array); isArr {
+				return c.pts(x.X)
+			}
+		}
+		return c.load(c.pts(x.X), "[]", c.typeOf(x))
 	case *ast.SliceExpr:
-		return c.roots(x.X)
+		return c.pts(x.X)
 	case *ast.StarExpr:
-		return c.roots(x.X)
+		if t := c.typeOf(x); isStructVal(t) {
+			return c.pts(x.X) // *p for a pointer to a struct: the same object
+		}
+		return c.load(c.pts(x.X), "*v", c.typeOf(x))
 	case *ast.TypeAssertExpr:
-		return c.roots(x.X)
+		return c.pts(x.X)
 	case *ast.UnaryExpr:
 		if x.Op == token.AND {
-			r := c.roots(x.X)
-			if _, ok := x.X.(*ast.CompositeLit); ok {
-				r["fresh"] = true
+			if cl, ok := x.X.(*ast.CompositeLit); ok {
+				return c.pts(cl)
 			}
-			if id, ok := x.X.(*ast.Ident); ok {
-				if o := info.Uses[id]; o != nil && c.isLocal(o) {
-					r["fresh"] = true // address of a local variable
+			objs, _ := c.lvalObjs(x.X)
+			if isStructVal(c.typeOf(x.X)) {
+				return objs // pointer to a struct: conflated with the struct
+			}
+			// pointer to a scalar / pointer variable: a cell object holding the value
+			cell := c.alloc(x.Pos())
+			if refLike(c.typeOf(x.X), 0) {
+				if c.storeField(cell, "*v", c.pts(x.X), false) {
+					c.ch = true
 				}
 			}
-			return r
+			return objSet{cell: true}
 		}
-		return rootSet{}
+		return objSet{}
 	case *ast.CompositeLit:
-		r := rootSet{"fresh": true}
-		for _, el := range x.Elts {
+		a := c.alloc(x.Pos())
+		for i, el := range x.Elts {
 			v := el
+			name := "[]"
 			if kv, ok := el.(*ast.KeyValueExpr); ok {
 				v = kv.Value
+				if id, ok := kv.Key.(*ast.Ident); ok && isStructVal(c.typeOf(x)) {
+					name = id.Name
+				}
+			} else if st, ok := c.typeOf(x).Underlying().(*types.Struct); ok && i < st.NumFields() {
+				name = st.Field(i).Name()
 			}
-			if tv, ok := info.Types[v]; ok && refLike(tv.Type, 0) && !configType(tv.Type) {
-				r.addAll(c.roots(v))
+			vt := c.typeOf(v)
+			if refLike(vt, 0) {
+				if c.storeField(a, name, c.pts(v), configType(vt)) {
+					c.ch = true
+				}
 			}
 		}
-		return r
+		return objSet{a: true}
 	case *ast.CallExpr:
-		return c.callRoots(x)
+		return c.callPts(x)
 	case *ast.FuncLit:
-		return rootSet{}
+		return objSet{}
 	}
-	return rootSet{}
+	return objSet{}
 }
 
-func (c *mrCtx) isLocal(o types.Object) bool {
-	if o == c.f.recvObj {
+func (c *mrCtx) storeField(o *aobj, field string, v objSet, cfg bool) bool {
+	if o.fields[field] == nil {
+		o.fields[field] = objSet{}
+	}
+	ch := o.fields[field].addAll(v)
+	if cfg && !o.cfg[field] {
+		o.cfg[field] = true
+		ch = true
+	}
+	return ch
+}
+
+// the objects that contain the storage denoted by the lvalue e; local=true when that storage is (inside) a variable of
+// this call (a local, a by-value parameter or receiver)
+func (c *mrCtx) lvalObjs(e ast.Expr) (objSet, bool) {
+	info := c.f.info
+	switch x := e.(type) {
+	case *ast.ParenExpr:
+		return c.lvalObjs(x.X)
+	case *ast.Ident:
+		o := info.Uses[x]
+		if o == nil {
+			o = info.Defs[x]
+		}
+		if o == nil {
+			return objSet{}, true
+		}
+		if isPkgVar(o) {
+			return objSet{c.region("global"): true}, false
+		}
+		return objSet{c.alloc(o.Pos()): true}, true
+	case *ast.StarExpr:
+		return c.pts(x.X), false
+	case *ast.IndexExpr:
+		if t := c.typeOf(x.X); t != nil {
+			if _, isArr := t.Underlying().(*types.Array); isArr {
+				return c.lvalObjs(x.X)
+			}
+		}
+		return c.pts(x.X), false
+	case *ast.SelectorExpr:
+		if sel, ok := info.Selections[x]; ok && sel.Kind() == types.FieldVal {
+			t := c.typeOf(x.X)
+			_, isPtr := t.Underlying().(*types.Pointer)
+			if isPtr || sel.Indirect() {
+				return c.pts(x.X), false
+			}
+			return c.lvalObjs(x.X)
+		}
+		if o := info.Uses[x.Sel]; o != nil && isPkgVar(o) {
+			return objSet{c.region("global"): true}, false
+		}
+	}
+	return objSet{}, true
+}
+
+func fieldNameOf(e ast.Expr) string {
+	switch x := e.(type) {
+	case *ast.ParenExpr:
+		return fieldNameOf(x.X)
+	case *ast.SelectorExpr:
+		return x.Sel.Name
+	case *ast.IndexExpr:
+		return "[]"
+	case *ast.StarExpr:
+		return "*v"
+	}
+	return "*"
+}
+
+// regions an allocation object may (transitively) hold references into, configuration-typed fields excluded
+func reach(o *aobj, seen map[*aobj]bool, out strSet) {
+	if seen[o] {
+		return
+	}
+	seen[o] = true
+	for f, vs := range o.fields {
+		if o.cfg[f] {
+			continue
+		}
+		for v := range vs {
+			if v.region {
+				out.add(v.id)
+			} else {
+				reach(v, seen, out)
+			}
+		}
+	}
+}
+
+func (c *mrCtx) noteWrite(objs objSet) {
+	for o := range objs {
+		if o.region && o.id != "closure" {
+			if c.f.writes.add(o.id) {
+				c.ch = true
+			}
+		}
+	}
+}
+
+// a value v is stored into the objects dst
+func (c *mrCtx) store(dst objSet, field string, v objSet, valType types.Type) {
+	c.noteWrite(dst)
+	if !refLike(valType, 0) {
+		return
+	}
+	cfg := configType(valType)
+	for d := range dst {
+		if d.region {
+			if cfg || d.id == "closure" {
+				continue
+			}
+			src := strSet{}
+			for s := range v {
+				if s.region {
+					src.add(s.id)
+				} else {
+					reach(s, map[*aobj]bool{}, src)
+				}
+			}
+			for s := range src {
+				if s != d.id && s != "closure" {
+					if c.f.aliases.add(d.id + "<-" + s) {
+						c.ch = true
+					}
+				}
+			}
+		} else if c.storeField(d, field, v, cfg) {
+			c.ch = true
+		}
+	}
+}
+
+func (c *mrCtx) assign(lhs ast.Expr, v objSet, t types.Type) {
+	info := c.f.info
+	if id, ok := lhs.(*ast.Ident); ok {
+		if id.Name == "_" {
+			return
+		}
+		o := info.Defs[id]
+		if o == nil {
+			o = info.Uses[id]
+		}
+		if o == nil {
+			return
+		}
+		if isPkgVar(o) {
+			c.store(objSet{c.region("global"): true}, id.Name, v, t)
+			return
+		}
+		if refLike(t, 0) {
+			if c.f.env[o] == nil {
+				c.f.env[o] = objSet{}
+			}
+			if c.f.env[o].addAll(v) {
+				c.ch = true
+			}
+		}
+		return
+	}
+	dst, _ := c.lvalObjs(lhs)
+	c.store(dst, fieldNameOf(lhs), v, t)
+}
+
+func implementsByName(f *mrFunc, w *mrWorld, iface *types.Interface) bool {
+	// all methods of the interface exist (by name) on f's receiver type
+	if f.recvType == nil {
 		return false
 	}
-	for _, p := range c.f.params {
-		if o == p {
+	t := f.recvType
+	if pt, ok := t.(*types.Pointer); ok {
+		t = pt.Elem()
+	}
+	n, ok := t.(*types.Named)
+	if !ok {
+		return false
+	}
+	have := map[string]bool{}
+	for i := 0; i < n.NumMethods(); i++ {
+		have[n.Method(i).Name()] = true
+	}
+	for i := 0; i < iface.NumMethods(); i++ {
+		if !have[iface.Method(i).Name()] {
 			return false
 		}
 	}
-	if v, ok := o.(*types.Var); ok {
-		return !(v.Pkg() != nil && v.Parent() == v.Pkg().Scope())
-	}
-	return false
+	return true
 }
 
-// resolve the callees of a call: package-local functions (statically), or by method name for interface dispatch
+// resolve the callees of a call: functions of the two packages (statically, or for interface dispatch every method of
+// that name whose receiver type has all the interface's methods)
 func (c *mrCtx) callees(call *ast.CallExpr) (fs []*mrFunc, recv ast.Expr, kind string) {
 	info := c.f.info
 	fun := call.Fun
@@ -327,8 +645,13 @@ func (c *mrCtx) callees(call *ast.CallExpr) (fs []*mrFunc, recv ast.Expr, kind s
 		if sel, ok := info.Selections[x]; ok {
 			if sel.Kind() == types.MethodVal {
 				fo := sel.Obj().(*types.Func)
-				if _, isIface := sel.Recv().Underlying().(*types.Interface); isIface {
-					ms := c.w.byName[fo.Name()]
+				if iface, isIface := sel.Recv().Underlying().(*types.Interface); isIface {
+					var ms []*mrFunc
+					for _, m := range c.w.byName[fo.Name()] {
+						if implementsByName(m, c.w, iface) {
+							ms = append(ms, m)
+						}
+					}
 					if len(ms) > 0 {
 						return ms, x.X, "interface"
 					}
@@ -355,261 +678,109 @@ func (c *mrCtx) callees(call *ast.CallExpr) (fs []*mrFunc, recv ast.Expr, kind s
 	return nil, nil, "dynamic"
 }
 
-// translate a callee root into the caller's roots at this call
-func (c *mrCtx) mapRoot(g *mrFunc, root string, recv ast.Expr, args []ast.Expr) rootSet {
+// translate a callee region into the caller's objects at this call
+func (c *mrCtx) mapRegion(g *mrFunc, region string, recv ast.Expr, args []ast.Expr) objSet {
 	switch {
-	case root == "recv":
+	case region == "recv":
 		if recv != nil {
-			return c.roots(recv)
+			return c.pts(recv)
 		}
-		return rootSet{}
-	case root == "global" || root == "fresh":
-		return rootSet{root: true}
-	case strings.HasPrefix(root, "param"):
+		return objSet{}
+	case region == "global":
+		return objSet{c.region("global"): true}
+	case strings.HasPrefix(region, "param"):
 		var i int
-		fmt.Sscanf(root, "param%d", &i)
-		r := rootSet{}
+		fmt.Sscanf(region, "param%d", &i)
+		r := objSet{}
 		if g.variadic && i == len(g.params)-1 {
 			for j := i; j < len(args); j++ {
-				r.addAll(c.roots(args[j]))
+				r.addAll(c.pts(args[j]))
 			}
 		} else if i < len(args) {
-			r.addAll(c.roots(args[i]))
+			r.addAll(c.pts(args[i]))
 		}
 		return r
 	}
-	return rootSet{}
+	return objSet{}
 }
 
-func (c *mrCtx) callRoots(call *ast.CallExpr) rootSet {
-	info := c.f.info
+func (c *mrCtx) callPts(call *ast.CallExpr) objSet {
 	fs, recv, kind := c.callees(call)
-	res := rootSet{}
-	tv, hasT := info.Types[call]
-	isRef := hasT && refLike(tv.Type, 0)
-	if tup, ok := tv.Type.(*types.Tuple); ok {
-		for i := 0; i < tup.Len(); i++ {
-			if refLike(tup.At(i).Type(), 0) {
-				isRef = true
-			}
-		}
-	}
+	res := objSet{}
+	t := c.typeOf(call)
+	isRef := refLike(t, 0)
 	switch {
 	case kind == "conversion":
 		if len(call.Args) == 1 && isRef {
-			// []byte(string) and string([]byte) copy; a conversion between reference types keeps the referent
-			if at, ok := info.Types[call.Args[0]]; ok && refLike(at.Type, 0) {
-				return c.roots(call.Args[0])
+			if refLike(c.typeOf(call.Args[0]), 0) {
+				return c.pts(call.Args[0])
 			}
-			return rootSet{"fresh": true}
+			return objSet{c.alloc(call.Pos()): true} // []byte(string) etc.: a copy
 		}
 		return res
 	case strings.HasPrefix(kind, "builtin:"):
 		switch kind[8:] {
 		case "append":
-			res["fresh"] = true
+			a := c.alloc(call.Pos())
+			res[a] = true
 			if len(call.Args) > 0 {
-				res.addAll(c.roots(call.Args[0]))
+				base := c.pts(call.Args[0])
+				res.addAll(base)
+				if c.storeField(a, "[]", c.load(base, "[]", nil), false) {
+					c.ch = true
+				}
 			}
-			for _, a := range call.Args[1:] {
-				if at, ok := info.Types[a]; ok {
-					t := at.Type
-					if call.Ellipsis.IsValid() {
-						if s, ok := t.Underlying().(*types.Slice); ok {
-							t = s.Elem()
-						}
+			for _, arg := range call.Args[1:] {
+				at := c.typeOf(arg)
+				v := c.pts(arg)
+				if call.Ellipsis.IsValid() {
+					if s, ok := at.Underlying().(*types.Slice); ok {
+						at = s.Elem()
+						v = c.load(v, "[]", at)
 					}
-					if refLike(t, 0) {
-						res.addAll(c.roots(a))
+				}
+				if refLike(at, 0) {
+					for o := range res {
+						if !o.region {
+							if c.storeField(o, "[]", v, false) {
+								c.ch = true
+							}
+						}
 					}
 				}
 			}
 		case "new", "make":
-			res["fresh"] = true
+			res[c.alloc(call.Pos())] = true
 		}
 		return res
 	case len(fs) > 0:
+		if !isRef {
+			return res
+		}
 		for _, g := range fs {
 			for r := range g.returns {
-				res.addAll(c.mapRoot(g, r, recv, call.Args))
+				switch {
+				case r == "fresh":
+					res[c.alloc(call.Pos())] = true
+				case strings.HasPrefix(r, "fresh."):
+					a := c.alloc(call.Pos())
+					res[a] = true
+					i := strings.LastIndex(r, ">")
+					if c.storeField(a, r[6:i], c.mapRegion(g, r[i+1:], recv, call.Args), false) {
+						c.ch = true
+					}
+				default:
+					res.addAll(c.mapRegion(g, r, recv, call.Args))
+				}
 			}
-		}
-		if !isRef {
-			return rootSet{}
 		}
 		return res
 	default:
 		if isRef {
-			res["fresh"] = true // results of external and dynamic calls are assumed not to alias their arguments
+			res[c.alloc(call.Pos())] = true // results of external and dynamic calls are assumed not to alias their arguments
 		}
 		return res
 	}
-}
-
-// the object a store through `lhs` writes to: roots of the innermost dereferenced expression; nil when the store goes to
-// the variable itself (a local, a by-value parameter or receiver: private to the call)
-func (c *mrCtx) storeTarget(lhs ast.Expr) (rootSet, bool) {
-	info := c.f.info
-	e := lhs
-	deref := false
-	for {
-		switch x := e.(type) {
-		case *ast.ParenExpr:
-			e = x.X
-			continue
-		case *ast.StarExpr:
-			return c.roots(x.X), true
-		case *ast.IndexExpr:
-			if tv, ok := info.Types[x.X]; ok {
-				switch tv.Type.Underlying().(type) {
-				case *types.Slice, *types.Map, *types.Pointer:
-					return c.roots(x.X), true
-				}
-			}
-			e = x.X
-			continue
-		case *ast.SelectorExpr:
-			if sel, ok := info.Selections[x]; ok && sel.Kind() == types.FieldVal {
-				if tv, ok := info.Types[x.X]; ok {
-					if _, isPtr := tv.Type.Underlying().(*types.Pointer); isPtr || sel.Indirect() {
-						return c.roots(x.X), true
-					}
-				}
-				e = x.X
-				continue
-			}
-			// package-qualified variable
-			if o := info.Uses[x.Sel]; o != nil {
-				if v, ok := o.(*types.Var); ok && v.Pkg() != nil && v.Parent() == v.Pkg().Scope() {
-					return rootSet{"global": true}, true
-				}
-			}
-			return rootSet{}, deref
-		case *ast.Ident:
-			o := info.Uses[x]
-			if o == nil {
-				o = info.Defs[x]
-			}
-			if v, ok := o.(*types.Var); ok && v.Pkg() != nil && v.Parent() == v.Pkg().Scope() {
-				return rootSet{"global": true}, true
-			}
-			return nil, false // the variable itself
-		default:
-			return rootSet{}, deref
-		}
-	}
-}
-
-func (c *mrCtx) noteWrite(t rootSet) {
-	for r := range t {
-		if r != "fresh" && !c.f.writes[r] {
-			c.f.writes[r] = true
-			c.ch = true
-		}
-	}
-}
-
-func (c *mrCtx) noteAlias(dst, src rootSet) {
-	for d := range dst {
-		if d == "fresh" {
-			continue
-		}
-		for s := range src {
-			if s == "fresh" || s == d {
-				continue
-			}
-			k := d + "<-" + s
-			if !c.f.aliases[k] {
-				c.f.aliases[k] = true
-				c.ch = true
-			}
-		}
-	}
-}
-
-func (c *mrCtx) bind(o types.Object, r rootSet) {
-	if o == nil {
-		return
-	}
-	if c.f.env[o] == nil {
-		c.f.env[o] = rootSet{}
-	}
-	if c.f.env[o].addAll(r) {
-		c.ch = true
-	}
-}
-
-// innermost variable of an lvalue (for "the object reachable from this local now also holds …")
-func (c *mrCtx) baseVar(e ast.Expr) types.Object {
-	for {
-		switch x := e.(type) {
-		case *ast.ParenExpr:
-			e = x.X
-		case *ast.StarExpr:
-			e = x.X
-		case *ast.IndexExpr:
-			e = x.X
-		case *ast.SliceExpr:
-			e = x.X
-		case *ast.SelectorExpr:
-			if _, ok := c.f.info.Selections[x]; ok {
-				e = x.X
-			} else {
-				return nil
-			}
-		case *ast.Ident:
-			if o := c.f.info.Uses[x]; o != nil {
-				return o
-			}
-			return c.f.info.Defs[x]
-		default:
-			return nil
-		}
-	}
-}
-
-func (c *mrCtx) assign(lhs ast.Expr, rhsRoots rootSet, rhsType types.Type) {
-	info := c.f.info
-	valRef := rhsType != nil && refLike(rhsType, 0)
-	if id, ok := lhs.(*ast.Ident); ok {
-		if id.Name == "_" {
-			return
-		}
-		o := info.Defs[id]
-		if o == nil {
-			o = info.Uses[id]
-		}
-		if v, ok := o.(*types.Var); ok && v.Pkg() != nil && v.Parent() == v.Pkg().Scope() {
-			c.noteWrite(rootSet{"global": true})
-			return
-		}
-		if valRef {
-			c.bind(o, rhsRoots)
-		}
-		return
-	}
-	t, through := c.storeTarget(lhs)
-	if through {
-		c.noteWrite(t)
-		if valRef && !configType(rhsType) {
-			c.noteAlias(t, rhsRoots)
-		}
-	}
-	// whatever is reachable from the base variable now also reaches the stored references
-	if valRef && !configType(rhsType) {
-		if o := c.baseVar(lhs); o != nil && (c.isLocal(o) || o == c.f.recvObj || c.isParam(o)) {
-			c.bind(o, rhsRoots)
-		}
-	}
-}
-
-func (c *mrCtx) isParam(o types.Object) bool {
-	for _, p := range c.f.params {
-		if o == p {
-			return true
-		}
-	}
-	return false
 }
 
 var externalMutators = map[string]int{"sort.Slice": 0, "sort.SliceStable": 0, "sort.Sort": 0, "sort.Stable": 0, "sort.Strings": 0, "sort.Ints": 0}
@@ -617,25 +788,20 @@ var externalMutators = map[string]int{"sort.Slice": 0, "sort.SliceStable": 0, "s
 func (c *mrCtx) visitCall(call *ast.CallExpr) {
 	fs, recv, kind := c.callees(call)
 	switch {
-	case kind == "builtin:copy" && len(call.Args) > 0:
-		c.noteWrite(c.roots(call.Args[0]))
-	case kind == "builtin:delete" && len(call.Args) > 0:
-		c.noteWrite(c.roots(call.Args[0]))
-	case kind == "builtin:clear" && len(call.Args) > 0:
-		c.noteWrite(c.roots(call.Args[0]))
+	case (kind == "builtin:copy" || kind == "builtin:delete" || kind == "builtin:clear") && len(call.Args) > 0:
+		c.noteWrite(c.pts(call.Args[0]))
+	case kind == "builtin:append" && len(call.Args) > 1:
+		// append may write into the spare capacity of its first argument's backing array
+		c.noteWrite(c.pts(call.Args[0]))
 	case strings.HasPrefix(kind, "external:"):
 		name := kind[9:]
 		if i, ok := externalMutators[name]; ok && i < len(call.Args) {
-			c.noteWrite(c.roots(call.Args[i]))
+			c.noteWrite(c.pts(call.Args[i]))
 		}
-		// a method of an external type called on a shared object: listed, to be classified by name on the Lean side
 		if recv != nil {
-			r := c.roots(recv)
-			for k := range r {
-				if k != "fresh" {
-					e := name + "@" + k
-					if !c.f.extern[e] {
-						c.f.extern[e] = true
+			for o := range c.pts(recv) {
+				if o.region && o.id != "closure" {
+					if c.f.extern.add(name + "@" + o.id) {
 						c.ch = true
 					}
 				}
@@ -644,37 +810,43 @@ func (c *mrCtx) visitCall(call *ast.CallExpr) {
 	case len(fs) > 0:
 		for _, g := range fs {
 			for r := range g.writes {
-				c.noteWrite(c.mapRoot(g, r, recv, call.Args))
+				c.noteWrite(c.mapRegion(g, r, recv, call.Args))
 			}
 			for a := range g.aliases {
 				parts := strings.SplitN(a, "<-", 2)
-				c.noteAlias(c.mapRoot(g, parts[0], recv, call.Args), c.mapRoot(g, parts[1], recv, call.Args))
-				// reflect the containment in local variables as well
-				if src := c.mapRoot(g, parts[1], recv, call.Args); len(src) > 0 {
-					var dstExpr ast.Expr
-					if parts[0] == "recv" {
-						dstExpr = recv
-					} else if strings.HasPrefix(parts[0], "param") {
-						var i int
-						fmt.Sscanf(parts[0], "param%d", &i)
-						if i < len(call.Args) {
-							dstExpr = call.Args[i]
+				dst := c.mapRegion(g, parts[0], recv, call.Args)
+				src := c.mapRegion(g, parts[1], recv, call.Args)
+				// not a configuration value (those were excluded in the callee); type unknown here: any reference
+				for d := range dst {
+					if d.region {
+						if d.id == "closure" {
+							continue
 						}
-					}
-					if dstExpr != nil {
-						if o := c.baseVar(stripAddr(dstExpr)); o != nil {
-							c.bind(o, src)
+						ss := strSet{}
+						for s := range src {
+							if s.region {
+								ss.add(s.id)
+							} else {
+								reach(s, map[*aobj]bool{}, ss)
+							}
 						}
+						for s := range ss {
+							if s != d.id && s != "closure" {
+								if c.f.aliases.add(d.id + "<-" + s) {
+									c.ch = true
+								}
+							}
+						}
+					} else if c.storeField(d, "*", src, false) {
+						c.ch = true
 					}
 				}
 			}
 			for e := range g.extern {
 				parts := strings.SplitN(e, "@", 2)
-				for k := range c.mapRoot(g, parts[1], recv, call.Args) {
-					if k != "fresh" {
-						ne := parts[0] + "@" + k
-						if !c.f.extern[ne] {
-							c.f.extern[ne] = true
+				for o := range c.mapRegion(g, parts[1], recv, call.Args) {
+					if o.region && o.id != "closure" {
+						if c.f.extern.add(parts[0] + "@" + o.id) {
 							c.ch = true
 						}
 					}
@@ -684,77 +856,89 @@ func (c *mrCtx) visitCall(call *ast.CallExpr) {
 	}
 }
 
-func stripAddr(e ast.Expr) ast.Expr {
-	if u, ok := e.(*ast.UnaryExpr); ok && u.Op == token.AND {
-		return u.X
+func (c *mrCtx) noteReturn(v objSet) {
+	for o := range v {
+		if o.region {
+			if o.id != "closure" && c.f.returns.add(o.id) {
+				c.ch = true
+			}
+			continue
+		}
+		if c.f.returns.add("fresh") {
+			c.ch = true
+		}
+		// one level of field sensitivity: which field of the new object leads into which region
+		for fname, vs := range o.fields {
+			if o.cfg[fname] {
+				continue
+			}
+			rs := strSet{}
+			for v := range vs {
+				if v.region {
+					rs.add(v.id)
+				} else if v != o {
+					reach(v, map[*aobj]bool{o: true}, rs)
+				}
+			}
+			for r := range rs {
+				if r != "closure" && c.f.returns.add("fresh."+fname+">"+r) {
+					c.ch = true
+				}
+			}
+		}
 	}
-	return e
 }
 
 func (c *mrCtx) analyse() {
 	f := c.f
 	info := f.info
-	if f.env == nil {
-		f.env = map[types.Object]rootSet{}
-	}
 	ast.Inspect(f.decl.Body, func(n ast.Node) bool {
 		switch x := n.(type) {
 		case *ast.AssignStmt:
 			if len(x.Lhs) == len(x.Rhs) {
 				for i, l := range x.Lhs {
-					var t types.Type
-					if tv, ok := info.Types[x.Rhs[i]]; ok {
-						t = tv.Type
-					}
 					if x.Tok != token.ASSIGN && x.Tok != token.DEFINE {
 						// op-assignment: a store without reference flow
-						if tg, through := c.storeTarget(l); through {
-							c.noteWrite(tg)
+						if _, isId := l.(*ast.Ident); !isId {
+							dst, _ := c.lvalObjs(l)
+							c.noteWrite(dst)
+						} else if o := info.Uses[l.(*ast.Ident)]; o != nil && isPkgVar(o) {
+							c.noteWrite(objSet{c.region("global"): true})
 						}
 						continue
 					}
-					c.assign(l, c.roots(x.Rhs[i]), t)
+					c.assign(l, c.pts(x.Rhs[i]), c.typeOf(x.Rhs[i]))
 				}
 			} else if len(x.Rhs) == 1 {
-				r := c.roots(x.Rhs[0])
-				var tup *types.Tuple
-				if tv, ok := info.Types[x.Rhs[0]]; ok {
-					tup, _ = tv.Type.(*types.Tuple)
-				}
+				v := c.pts(x.Rhs[0])
+				tup, _ := c.typeOf(x.Rhs[0]).(*types.Tuple)
 				for i, l := range x.Lhs {
 					var t types.Type
 					if tup != nil && i < tup.Len() {
 						t = tup.At(i).Type()
-					} else if tv, ok := info.Types[l]; ok {
-						t = tv.Type
+					} else {
+						t = c.typeOf(l)
 					}
-					c.assign(l, r, t)
+					c.assign(l, v, t)
 				}
 			}
 		case *ast.IncDecStmt:
-			if tg, through := c.storeTarget(x.X); through {
-				c.noteWrite(tg)
+			if id, isId := x.X.(*ast.Ident); !isId {
+				dst, _ := c.lvalObjs(x.X)
+				c.noteWrite(dst)
+			} else if o := info.Uses[id]; o != nil && isPkgVar(o) {
+				c.noteWrite(objSet{c.region("global"): true})
 			}
 		case *ast.ValueSpec:
 			for i, id := range x.Names {
 				if i < len(x.Values) {
-					var t types.Type
-					if tv, ok := info.Types[x.Values[i]]; ok {
-						t = tv.Type
-					}
-					c.assign(id, c.roots(x.Values[i]), t)
+					c.assign(id, c.pts(x.Values[i]), c.typeOf(x.Values[i]))
 				}
 			}
 		case *ast.RangeStmt:
-			r := c.roots(x.X)
 			if x.Value != nil {
-				if tv, ok := info.Types[x.Value]; ok {
-					c.assign(x.Value, r, tv.Type)
-				} else if id, ok := x.Value.(*ast.Ident); ok {
-					if o := info.Defs[id]; o != nil {
-						c.assign(x.Value, r, o.Type())
-					}
-				}
+				v := c.load(c.pts(x.X), "[]", c.typeOf(x.Value))
+				c.assign(x.Value, v, c.typeOf(x.Value))
 			}
 		case *ast.CallExpr:
 			c.visitCall(x)
@@ -762,32 +946,25 @@ func (c *mrCtx) analyse() {
 			if len(x.Results) == 0 {
 				for _, ro := range f.results {
 					if refLike(ro.Type(), 0) && !configType(ro.Type()) {
-						if f.returns.addAll(c.objRoots(ro)) {
-							c.ch = true
-						}
+						c.noteReturn(c.varPts(ro))
 					}
 				}
 			}
 			for i, e := range x.Results {
-				var t types.Type
-				if tv, ok := info.Types[e]; ok {
-					t = tv.Type
-				}
+				t := c.typeOf(e)
 				if len(x.Results) == len(f.results) && i < len(f.results) {
 					t = f.results[i].Type()
 				}
-				if _, isCall := e.(*ast.CallExpr); isCall && len(x.Results) == 1 && len(f.results) > 1 {
+				if tup, ok := t.(*types.Tuple); ok {
 					t = nil
-					for _, ro := range f.results {
-						if refLike(ro.Type(), 0) && !configType(ro.Type()) {
-							t = ro.Type()
+					for j := 0; j < tup.Len(); j++ {
+						if refLike(tup.At(j).Type(), 0) && !configType(tup.At(j).Type()) {
+							t = tup.At(j).Type()
 						}
 					}
 				}
 				if t != nil && refLike(t, 0) && !configType(t) {
-					if f.returns.addAll(c.roots(e)) {
-						c.ch = true
-					}
+					c.noteReturn(c.pts(e))
 				}
 			}
 		}
@@ -812,13 +989,12 @@ func modref() (url []string, canon []string, stats string) {
 			c.analyse()
 			ch = ch || c.ch
 		}
-		if !ch || rounds > 50 {
+		if !ch || rounds > 60 {
 			break
 		}
 	}
 	for _, k := range w.order {
 		f := w.funcs[k]
-		delete(f.returns, "")
 		line := fmt.Sprintf("(%s, %s, %s, %s, %s, %s)", leanStr(f.display), leanBool(f.api), leanStrList(f.writes.sorted()), leanStrList(f.returns.sorted()), leanStrList(f.aliases.sorted()), leanStrList(f.extern.sorted()))
 		if f.pkg == "url" {
 			url = append(url, line)
